@@ -331,6 +331,7 @@ func (e *kvElection) stopped() bool {
 }
 
 func (e *kvElection) attemptAcquire() error {
+	e.verifYield("acquire.attempt")
 	select {
 	case e.acquireSem <- struct{}{}:
 		defer func() { <-e.acquireSem }()
